@@ -76,10 +76,18 @@ func (ex *Exec) indexAddr(st *PState, in *ssa.IndexAddr) Value {
 			}
 			at := in.X.Type().Underlying().(*types.Pointer).Elem()
 			if _, ok := ex.abstractSort(at); ok {
-				fail("index into abstracted type %s", at)
+				c, isC := idx.constInt()
+				if !isC {
+					fail("symbolic index into abstracted type %s", at)
+				}
+				return &PtrV{Obj: p.Obj, Path: p.Path, Limb: int(c.Int64()) + 1}
 			}
 			n := int(at.Underlying().(*types.Array).Len())
 			ex.boundsCheck(st, g, idx, ts.Int64(int64(n)))
+			if p.Sub != nil {
+				arr := walk(ex.objValue(st, p.Obj), p.Path).(*ArrayV)
+				return ex.elemPtr(st, p.Obj, p.Path, ts.Add(p.Sub.Off, idx), len(arr.E))
+			}
 			return ex.elemPtr(st, p.Obj, p.Path, idx, n)
 		case *SliceV:
 			ex.boundsCheck(st, g, idx, p.Len)
@@ -232,6 +240,9 @@ func (ex *Exec) sliceOp(st *PState, in *ssa.Slice) Value {
 				return &SliceV{Off: ts.Int64(0), Len: ts.Int64(0), Cap: ts.Int64(0)}
 			}
 			n := in.X.Type().Underlying().(*types.Pointer).Elem().Underlying().(*types.Array).Len()
+			if s.Sub != nil {
+				return ex.reslice(st, g, s.Obj, s.Path, s.Sub.Off, ts.Int64(n), ts.Int64(n), lo, hi, max)
+			}
 			return ex.reslice(st, g, s.Obj, s.Path, ts.Int64(0), ts.Int64(n), ts.Int64(n), lo, hi, max)
 		case *SliceV:
 			return ex.reslice(st, g, s.Obj, s.Path, s.Off, s.Len, s.Cap, lo, hi, max)
@@ -272,6 +283,9 @@ func (ex *Exec) builtinLen(st *PState, x Value) Value {
 		case *ArrayV:
 			return ts.Int64(int64(len(s.E)))
 		case *PtrV:
+			if s.Sub != nil {
+				return ts.Int64(int64(s.Sub.N))
+			}
 			if s.Obj != nil {
 				if a, ok := walk(ex.objValue(st, s.Obj), s.Path).(*ArrayV); ok {
 					return ts.Int64(int64(len(a.E)))
